@@ -356,7 +356,7 @@ func exec(r *harness.Run) *harness.Violation {
 			return nil
 		}
 		chain, ok := gcref.PanicChain(crash)
-		if !ok || strings.Contains(crash, "repanicked") {
+		if !ok {
 			harness.Fail("cannot parse gc crash output: %q", crash)
 		}
 		pe, isPanic := res.err.(*scriggo.PanicError)
